@@ -1,6 +1,6 @@
 #!/bin/bash
 # usage: tools/seedrun.sh <diff> <ID> [tier]   — run a check against a scratch copy of /repo with a change applied
-diff=$1; id=$2; tier=${3:-quick}
+diff=$(realpath "$1"); id=$2; tier=${3:-quick}
 S=/tmp/mrepo-$$
 rsync -a --delete --exclude /target --exclude /.git /repo/ $S/ || exit 3
 ( cd $S && patch -p1 -s < "$diff" ) || { echo "patch failed"; rm -rf $S; exit 3; }
